@@ -51,4 +51,12 @@ example : (⟨false, 0x0101, [1, 2, 3, 4, 5, 6, 7, 8, 9, 10, 11, 12, 13, 14]⟩ 
 /-- the model's `toFrames` is `to_frames` with the constants that stand in `src/packet.rs` (lengths 0..=30) -/
 theorem C10_src_fragmentation : SrcTie.fragOk = true := by decide
 
+/-- on the frames of a multi-frame packet the first data byte is the low byte of the frame id, a non-multi frame is the
+single start frame with id 0, and the id kind follows the start flag -/
+theorem C10_first_byte_is_id (p : Packet) (hn : p.data.length ≤ 28672) :
+    ∀ f ∈ specFrames p,
+      if f.multi then 1 ≤ f.dataLen ∧ f.idLast = f.start ∧ (f.data.headD 0).toNat = f.fid % 256
+      else f.start = true ∧ f.idLast = true ∧ f.fid = 0 :=
+  fun f hf => (Ross.specFrames_canCanonical p hn f hf).2
+
 end Ross.Props
